@@ -2,6 +2,7 @@
 # tools/saveseed.sh <Cnn> <tag>  -- copy a sub-agent's deliverables into seeded/, drop its worktree, run the property's check against it
 p=$1; t=$2
 cd "$(dirname "$0")/.."
+[ -f /tmp/wtout/${p}${t}/notes.md ] || { echo "saveseed: /tmp/wtout/${p}${t}/notes.md missing -- the sub-agent has not finished"; exit 3; }
 mkdir -p seeded/$p-$t
 cp /tmp/wtout/${p}${t}/patch.diff /tmp/wtout/${p}${t}/demo.py /tmp/wtout/${p}${t}/notes.md seeded/$p-$t/ 2>/dev/null
 git -C /repo worktree remove --force /tmp/wt/${p}${t} 2>/dev/null
